@@ -223,6 +223,37 @@ pub fn dispatch(kind: &str, a: &[&str]) -> Option<String> {
                 o1
             }
         }
+        // >>> s_c12 (wave 6): the slice at a chosen ABSOLUTE address modulo 128 (`al`), hostile bytes before and after; same
+        //     output as enc.ctx.  A decoder that walked aligned words / 16, 32, 64-byte blocks (align_to, SIMD) would depend on it.
+        ("enc.al", [dec, al, pre, h, post]) => {
+            let (al, pre, d, post) = (al.parse::<usize>().ok()? % 128, unhex(pre), unhex(h), unhex(post));
+            let mut buf: Vec<u8> = Vec::with_capacity(pre.len() + d.len() + post.len() + 256);
+            let want = (al + 128 - pre.len() % 128) % 128; // address of buf[pad] modulo 128
+            let pad = (want + 128 - (buf.as_ptr() as usize) % 128) % 128;
+            for i in 0..pad {
+                buf.push(if i % 2 == 0 { b'\\' } else { 0xff });
+            }
+            buf.extend_from_slice(&pre);
+            buf.extend_from_slice(&d);
+            buf.extend_from_slice(&post);
+            let lo = pad + pre.len();
+            let s = &buf[lo..lo + d.len()];
+            if !d.is_empty() && (s.as_ptr() as usize) % 128 != al {
+                return Some("MISALIGNED".into());
+            }
+            let (c1, c2) = match *dec {
+                "w" => (Windows1252Encoding::decode(s), Encoding::decode(&Windows1252Encoding::new(), s)),
+                _ => (Utf8Encoding::decode(s), Encoding::decode(&Utf8Encoding::new(), s)),
+            };
+            let o1 = format!("{}{}", show_cow(&c1), show_ptr(&c1, s, &buf));
+            let o2 = format!("{}{}", show_cow(&c2), show_ptr(&c2, s, &buf));
+            if o1 != o2 {
+                format!("DIFF:{}|{}", o1, o2)
+            } else {
+                o1
+            }
+        }
+        // <<<
         ("enc.display", [h]) => {
             let d = unhex(h);
             let s = Scalar::new(&d);
